@@ -143,6 +143,37 @@ def inherent_modules():
     return out
 
 
+def bound_modules():
+    """generic enums with a `bound(..)` on ONE variant: it speaks for that variant only - the variants after it keep their own
+    (default) bounds and print as with the standard derive"""
+    out = []
+    decls = [('pub enum X<T> { #[debug(bound())] A(u8), B(T), C { c: Option<T> } }', ['X::<u16>::A(1)', 'X::B(7u16)', 'X::C { c: Some(7u16) }']),
+             ('pub enum X<T, U> { #[derive_ex(Debug(bound()))] A, #[debug(bound(U: ::core::fmt::Debug))] B(U), C(T, #[debug(ignore)] u8), D { d: (T, U) } }',
+              ['X::<u16, i8>::A', 'X::<u16, i8>::B(-1)', 'X::<u16, i8>::C(5, 0)', 'X::<u16, i8>::D { d: (5, -1) }']),
+             ('pub enum X<T> { A(#[debug(bound())] ::core::marker::PhantomData<T>), #[debug(bound(T: ::core::fmt::Debug))] B(T), C(#[debug(transparent)] T) }',
+              ['X::<u16>::A(::core::marker::PhantomData)', 'X::B(7u16)', 'X::C(7u16)'])]
+    import re as _re
+    for k, (decl, vals) in enumerate(decls):
+        for mode in ('attr', 'derive'):
+            cid = 3 * 10 ** 6 + 2 * k + (mode == 'derive')
+            head = '#[::derive_ex::derive_ex(Debug)]' if mode == 'attr' else '#[derive(::derive_ex::Ex)] #[derive_ex(Debug)]'
+            clean = _re.sub(r'#\[(debug|derive_ex)\((?:[^()\[\]]|\([^()]*(?:\([^()]*\))?[^()]*\))*\)\] ', '', decl.replace('#[debug(ignore)] u8', ''))
+            clean = clean.replace('C(T, )', 'C(T)')
+            src = [head + ' ' + decl, 'pub mod twin { #[allow(unused_imports)] use super::*; #[derive(Debug)] %s }' % clean, 'pub fn run() {']
+            n = 0
+            for vi, v in enumerate(vals):
+                tv = 'twin::' + v.replace('C(5, 0)', 'C(5)')
+                if 'transparent' in decl and v.startswith('X::C'):
+                    tv = '7u16'
+                for si, spec in enumerate(SPECS):
+                    src.append('    println!("%d\\tv%ds%d\\t{}", format!("%s", %s) == format!("%s", %s));' % (cid, vi, si, spec, v, spec, tv))
+                    n += 1
+            src.append('}')
+            text = ('#[derive_ex(Debug)] ' if mode == 'attr' else '#[derive(Ex)] #[derive_ex(Debug)] ') + decl
+            out.append((cid, '\n'.join(src), text, n))
+    return out
+
+
 def unsized_modules():
     out = []
     for k, (g, wh, body, val) in enumerate(UNSIZED_TAILS):
@@ -273,7 +304,7 @@ class C10(Prop):
                 self.text, self.meta = text, dict(raw=False, nontrivial=True, vs=[None] * 0, n_expected=n)
             def input_text(self):
                 return self.text
-        for cid, src, text, n in unsized_modules() + inherent_modules():
+        for cid, src, text, n in unsized_modules() + inherent_modules() + bound_modules():
             mods.append(l2.Module(cid, src, _Lit(text, n)))
         nb = 8
         batches = [('c10_%d' % k, mods[k::nb]) for k in range(nb)]
